@@ -2,6 +2,8 @@
 //! against the real Server; unique-content files, before/after tree snapshots, lexical reference resolver.
 
 use crate::loopback::*;
+use crate::refcodec as rc;
+use crate::refcodec::RPacket;
 use crate::util::*;
 use crate::{Outcome, Tier};
 use serde_json::{json, Value};
@@ -77,6 +79,57 @@ pub fn cell(spec: &Value) -> Value {
     let initial = plant(&srv);
     // the server's working directory lies inside the observed tree (a file written relative to the cwd is seen)
     let _ = std::env::set_current_dir(format!("{}/cwd", srv.root));
+    if spec["family"] == "abort" {
+        // downloads that FAIL (the peer answers the first DATA with an ERROR, or falls silent after requesting timeout=1):
+        // a read request must not change the tree whichever way it ends
+        let names = ["a.txt", "sub/b.txt", "/a.txt", "\\a.txt", "./a.txt", "sub\\b.txt"];
+        for name in names {
+            for silent in [false, true] {
+                if silent && !spec["with_silence"].as_bool().unwrap_or(false) {
+                    continue;
+                }
+                c.executions += 1;
+                c.states += 1;
+                let mut cl = Client::new(srv.addr);
+                let opts: Vec<(String, String)> = if silent { vec![("timeout".into(), "1".into())] } else { vec![] };
+                cl.to_server(&rc::request(false, name.as_bytes(), &opts));
+                let first = reply_or_quiet(&srv, &mut cl);
+                c.transitions += 2;
+                let got_data = matches!(first.as_ref().map(|(b, _)| rc::decode(b)), Some(Ok(RPacket::Data { .. })) | Some(Ok(RPacket::Oack(_))));
+                if got_data {
+                    c.nontrivial += 1;
+                    if !silent {
+                        cl.to_peer(&rc::error(0, "abort"));
+                    } else {
+                        // say nothing: the server gives up after its retries (6 x 1 s)
+                        let t0 = std::time::Instant::now();
+                        while workers_alive() && t0.elapsed() < std::time::Duration::from_secs(12) {
+                            std::thread::sleep(std::time::Duration::from_millis(20));
+                        }
+                    }
+                }
+                quiesce();
+                let after = snapshot(&srv.root);
+                let diff = tree_diff(&initial, &after);
+                if !diff.is_empty() {
+                    c.violations.push(Violation {
+                        property: "C03".into(),
+                        clause: "fs-effect-outside".into(),
+                        facts: facts(&[("kind", json!("RRQ"))]),
+                        what: format!("[{}] RRQ {:?} that was {} changed the tree: {:?} (a read request must change nothing, however it ends)", cfg.brief(), name, if silent { "abandoned by the peer (server gave up after its retries)" } else { "aborted by a peer ERROR after the first DATA" }, diff),
+                        replay: json!({"engine": "e2_c03", "srv": cfg.to_json(), "name": name, "write": false, "abort": true}),
+                        weight: 50 + name.len() as u64,
+                    });
+                    restore(&srv.root, &initial);
+                }
+            }
+        }
+        c.trace_hashes.insert(fnv64(b"abort-family"));
+        if !quiesce() {
+            c.machinery_errors.push("server did not become quiescent at the end of a C03 cell".into());
+        }
+        return c.to_json();
+    }
     let prefix: Vec<usize> = spec["prefix"].as_array().unwrap().iter().map(|x| x.as_u64().unwrap() as usize).collect();
     let more = spec["more"].as_u64().unwrap() as usize;
     let allowed: Vec<usize> = match spec["allowed"].as_array() {
@@ -88,7 +141,7 @@ pub fn cell(spec: &Value) -> Value {
     let long_family = spec["family"] == "long";
     let seg_family = spec["family"] == "segments" || long_family;
     let segments: Vec<String> = vec!["/".into(), "\\".into(), "../".into(), "..\\".into(), "./".into(), "sub/".into(), "sub\\".into()];
-    let leaves: Vec<String> = vec!["a.txt".into(), "b.txt".into(), "outside.txt".into(), "new.txt".into(), "secret.txt".into(), "..".into(), "srv-evil/secret.txt".into(), "up/old.txt".into(), "newdir/x.txt".into()];
+    let leaves: Vec<String> = vec!["a.txt".into(), "b.txt".into(), "outside.txt".into(), "new.txt".into(), "secret.txt".into(), "..".into(), "srv-evil/secret.txt".into(), "up/old.txt".into(), "newdir/x.txt".into(), "old.txt".into()];
     let mut seg_names: Vec<String> = vec![];
     if long_family {
         // third family: names up to and beyond the classic 512-byte request and the NAME_MAX / PATH_MAX limits: every
@@ -280,6 +333,14 @@ pub fn check(tier: Tier) -> Outcome {
             cfgs.push(s);
         }
     }
+    {
+        // the send directory is not named on the command line (-d + -rd): it must be the -d directory, not the receive directory
+        let mut s = SrvCfg::basic();
+        s.distinct = true;
+        s.rd_only = true;
+        s.overwrite = true;
+        cfgs.push(s);
+    }
     if tier == Tier::Thorough {
         let mut s = SrvCfg::basic();
         s.single = true;
@@ -298,6 +359,7 @@ pub fn check(tier: Tier) -> Outcome {
             cells.push(json!({"srv": s.to_json(), "prefix": [], "more": 0, "family": "segments", "first_seg": first_seg, "segs": if tier == Tier::Quick { 3 } else { 4 }}));
         }
         cells.push(json!({"srv": s.to_json(), "prefix": [], "more": 0, "family": "long"}));
+        cells.push(json!({"srv": s.to_json(), "prefix": [], "more": 0, "family": "abort", "with_silence": false}));
         if tier == Tier::Thorough {
             // depth 5/6 on the separator/dot sub-alphabet
             let sub = [0usize, 1, 2, 3, 4, 5, 14];
@@ -308,11 +370,17 @@ pub fn check(tier: Tier) -> Outcome {
             }
         }
     }
+    {
+        // one download abandoned by its peer (server gives up after six 1-second timeouts; ~6 s of wall clock)
+        let mut s = SrvCfg::basic();
+        s.distinct = true;
+        cells.insert(0, json!({"srv": s.to_json(), "prefix": [], "more": 0, "family": "abort", "with_silence": true}));
+    }
     let n = cells.len();
     let res = run_cells("c03", cells, &crate::pool_opts(tier));
     let mut out = Outcome::new("C03", "model_checking");
     out.absorb(res, n);
-    out.rule = format!("every filename that is a concatenation of <= {depth} tokens over an {NTOK}-token path alphabet ('/', '\\', '..', '.', existing file, subdirectory, file in it, new name, a file one level up, a sibling directory sharing the served directory's name as prefix, absolute sandbox and served paths, empty, '...', '..\\', '%2e%2e', 'up', 'secret.txt'){}, plus every name made of <= 3 (thorough 4) separator-carrying segments ('/', '\\', '../', '..\\', './', 'sub/', 'sub\\') followed by one of 9 leaves (one with a missing parent directory), plus long names (harmless prefixes of 100..5000 characters and of 50..2100 repeated './', '/', '\\', 'sub/../', '../' segments in front of 8 inside/escaping base names; single components of 255..20000 characters; a few odd spellings); each as RRQ and as WRQ, against the real Server on loopback in {} configurations (shared/distinct dirs x overwrite{}); each accepted request is carried to its end. Oracle: served bytes identify a file inside the send directory (every file's content is its own path); tree snapshot before/after shows at most one create/modify inside the receive directory; names a lexical reference resolver puts outside are answered with ERROR and have no effect. non-trivial = requests that transferred data. states = requests, transitions = datagram exchanges.", if tier == Tier::Thorough { ", plus <= 6 tokens over the separator/dot sub-alphabet" } else { "" }, cfgs.len(), if tier == Tier::Thorough { ", plus single-port" } else { "" });
+    out.rule = format!("every filename that is a concatenation of <= {depth} tokens over an {NTOK}-token path alphabet ('/', '\\', '..', '.', existing file, subdirectory, file in it, new name, a file one level up, a sibling directory sharing the served directory's name as prefix, absolute sandbox and served paths, empty, '...', '..\\', '%2e%2e', 'up', 'secret.txt'){}, plus every name made of <= 3 (thorough 4) separator-carrying segments ('/', '\\', '../', '..\\', './', 'sub/', 'sub\\') followed by one of 10 leaves (one with a missing parent directory, one that exists only in the receive directory), plus long names (harmless prefixes of 100..5000 characters and of 50..2100 repeated './', '/', '\\', 'sub/../', '../' segments in front of 8 inside/escaping base names; single components of 255..20000 characters; a few odd spellings); each as RRQ and as WRQ, against the real Server on loopback in {} configurations (shared/distinct dirs x overwrite, distinct dirs with the send directory by fallback{}); plus downloads of 6 valid names that FAIL (peer ERROR after the first DATA; peer silence until the server gives up): the tree must be unchanged; each accepted request is carried to its end. Oracle: served bytes identify a file inside the send directory (every file's content is its own path); tree snapshot before/after shows at most one create/modify inside the receive directory; names a lexical reference resolver puts outside are answered with ERROR and have no effect. non-trivial = requests that transferred data. states = requests, transitions = datagram exchanges.", if tier == Tier::Thorough { ", plus <= 6 tokens over the separator/dot sub-alphabet" } else { "" }, cfgs.len(), if tier == Tier::Thorough { ", plus single-port" } else { "" });
     out.assumptions = vec!["Linux path semantics; no symlinks planted inside the served directories".into(), "one server per configuration per shard process is reused across requests (the tree is restored after every request)".into()];
     out
 }
